@@ -204,4 +204,21 @@ def task_import(task, rec, out):
         shutil.rmtree(root, ignore_errors=True)
 
 
-KINDS = {"import": task_import, "fresh": task_fresh, "stateless": task_stateless, "history": task_history, "loop": task_loop, "equiv": task_equiv}
+def task_kernel(task, rec, out):
+    """E2: one operator of one fold kernel, symbolically executed from the current source"""
+    from . import kernels
+
+    fn, call, _ops = kernels._kernels()[task["kernel"]]
+    out["findings"] += kernels.check_op(rec, task["kernel"], fn, call, task["op"])
+    out["ok_builds"] = 1
+
+
+def task_kernel2(task, rec, out):
+    from . import kernels
+
+    fn, call, _ops = kernels._kernels()["ConstantFolder.fold_binary_operation"]
+    out["findings"] += kernels.check_depth2(rec, "ConstantFolder.extract_constant_int", fn, call, [tuple(task["pair"])])
+    out["ok_builds"] = 1
+
+
+KINDS = {"kernel": task_kernel, "kernel2": task_kernel2, "import": task_import, "fresh": task_fresh, "stateless": task_stateless, "history": task_history, "loop": task_loop, "equiv": task_equiv}
